@@ -6,8 +6,9 @@
    [c15_d_total : forall input, ~ Known input -> d input is not a Panic] together with refutation
    witnesses [known_d_witness...] showing that each excluded class really panics.
 
-   FULL STATEMENT (not provable as such: it quantifies over every reader of every crate, and the
-   implementation violates it on the known classes listed in known_findings.d/C15.json):      *)
+   [c15_full_statement] is the property restricted to the three modelled decoders; the property
+   itself quantifies over every reader of every crate and is covered for the rest by the
+   implementation-side search only (partial by design).                                        *)
 From Coq Require Import List NArith Bool.
 From NV Require Import Hostile.Panics Hostile.PanicsProofs.
 Import ListNotations.
@@ -88,25 +89,30 @@ Print Assumptions fixed_csi_query_v0_witness.
 
 Definition states_tail : list N := [0;0;128;0; 0;0;128;0; 0;0;128;0; 0;0;128;0; 0;0;0;0;0;0;0;0].
 
-(* ---- (3) rANS 4x8 order-0 frequency table -------------------------------------------------- *)
+(* ---- (3) rANS 4x8 order-0: frequency table + one decoded symbol ---------------------------- *)
 
-Theorem c15_rans_run_total_partial :
-  forall n bs sym F, sym + N.of_nat n <= 255 -> is_panic (read_run n bs sym F) = false.
-Proof. exact read_run_total. Qed.
-Print Assumptions c15_rans_run_total_partial.
+(* After the repairs (checked symbol increment; validate_frequencies: table sum <= 4096) reading
+   the frequency table, building the cumulative table, reading the states and decoding a symbol
+   never panics, for EVERY byte string: the cumulative u16 sum cannot overflow and the u32
+   state step can neither overflow nor underflow. *)
+Theorem c15_rans_freq_total : forall bytes, is_panic (rfreq bytes) = false.
+Proof. exact rfreq_total. Qed.
+Print Assumptions c15_rans_freq_total.
 
-Theorem known_rans_freq_witness :
-  rfreq ([254; 5; 255; 1; 1; 0] ++ states_tail) = Panic S_SYM_ADD /\
-  rfreq ([97; 192; 255; 255; 99; 1; 0] ++ states_tail) = Panic S_CUM_ADD.
+(* the decoder before the repairs panicked on these tables (finding F10, fixed) *)
+Theorem fixed_rans_freq_v0_witness :
+  rfreq_v0 ([254; 5; 255; 1; 1; 0] ++ states_tail) = Panic S_SYM_ADD /\
+  rfreq_v0 ([97; 192; 255; 255; 99; 1; 0] ++ states_tail) = Panic S_CUM_ADD.
 Proof. split; vm_compute; reflexivity. Qed.
-Print Assumptions known_rans_freq_witness.
+Print Assumptions fixed_rans_freq_v0_witness.
 
-(* the full statement is refuted by the witnesses above *)
-Theorem c15_full_statement_refuted : ~ c15_full_statement.
+(* All three modelled decoders are now total: the statement below, which the first revision of
+   this file REFUTED (c15_full_statement_refuted), holds of the repaired code. *)
+Theorem c15_modelled_decoders_total : c15_full_statement.
 Proof.
-  intros [_ [_ H]]. specialize (H ([254; 5; 255; 1; 1; 0] ++ states_tail)). vm_compute in H. discriminate.
+  split; [exact seek_then_total | split; [exact query_total | exact rfreq_total]].
 Qed.
-Print Assumptions c15_full_statement_refuted.
+Print Assumptions c15_modelled_decoders_total.
 
 (* non-vacuity: the hypotheses are satisfiable and the models accept ordinary inputs *)
 Example c15_nonvacuous_seek : loaded_len (skipn 1 [5; 7]) = 7 /\ seek_then [5; 7] 1 3 0 = Ok 4.
